@@ -351,6 +351,7 @@ func c14PrfMatchesMac(p *Prog, r *Result) {
 func checkC14(c *Ctx, p *Prog, r *Result) {
 	kexPkg := modulePath + "/kex"
 	c14PrfMatchesMac(p, r)
+	c14KdfKeyFixedWidth(p, r, kexPkg)
 	// (a) sibling derivations
 	r.rule("C14.derivation-shape", "every function of package kex that calls nistkdf.KDF has the same derivation shape (see explanation)")
 	r.floor("C14.derivation-shape", 3)
@@ -1229,4 +1230,99 @@ func allPathsHitOrError(p *Prog, f *Flow, b *ssa.BasicBlock, hit func(ssa.Instru
 		}
 	}
 	return true, ""
+}
+
+// c14KdfKeyFixedWidth — "C14.kdf-secret-fixed-width". The two parties (and any
+// conforming peer) must feed the KDF the same octet string. An integer secret has
+// one only at a fixed width: big.Int.Bytes() drops leading zero octets, so about
+// one exchange in 256 would derive keys from a shorter string. Every secret
+// argument of nistkdf.KDF in package kex that comes from a big.Int is therefore
+// a buffer filled by FillBytes, never the result of Bytes().
+func c14KdfKeyFixedWidth(p *Prog, r *Result, kexPkg string) {
+	rule := "C14.kdf-secret-fixed-width"
+	r.rule(rule, "the secret argument of every nistkdf.KDF call in package kex does not contain the result of (*big.Int).Bytes() (variable width: leading zero octets dropped); an integer secret reaches the KDF through (*big.Int).FillBytes into a buffer allocated in that function")
+	r.floor(rule, 3)
+	isBig := func(call *ssa.Call, name string) bool {
+		cal := call.Call.StaticCallee()
+		return cal != nil && p.FuncName(cal) == "math/big.Int."+name
+	}
+	var leak func(v ssa.Value, depth int, seen map[ssa.Value]bool) string
+	leak = func(v ssa.Value, depth int, seen map[ssa.Value]bool) string {
+		if depth > 6 || seen[v] {
+			return ""
+		}
+		seen[v] = true
+		switch x := v.(type) {
+		case *ssa.Call:
+			if isBig(x, "Bytes") {
+				return "(*big.Int).Bytes() at " + p.instrPos(x)
+			}
+			if b, ok := x.Call.Value.(*ssa.Builtin); ok && b.Name() == "append" {
+				for _, a := range x.Call.Args {
+					if w := leak(a, depth+1, seen); w != "" {
+						return w
+					}
+				}
+			}
+		case *ssa.Slice:
+			return leak(x.X, depth+1, seen)
+		case *ssa.ChangeType:
+			return leak(x.X, depth+1, seen)
+		case *ssa.Phi:
+			for _, e := range x.Edges {
+				if w := leak(e, depth+1, seen); w != "" {
+					return w
+				}
+			}
+		case *ssa.UnOp:
+			if al, ok := x.X.(*ssa.Alloc); ok {
+				for _, ref := range *al.Referrers() {
+					if st, ok := ref.(*ssa.Store); ok && st.Addr == al {
+						if w := leak(st.Val, depth+1, seen); w != "" {
+							return w
+						}
+					}
+				}
+			}
+		}
+		return ""
+	}
+	for _, call := range p.callsTo("fdo/internal/nistkdf.KDF") {
+		fn := call.Parent()
+		if funcPkgPath(fn) != kexPkg || len(call.Common().Args) < 2 {
+			continue
+		}
+		secret := call.Common().Args[1]
+		w := leak(secret, 0, map[ssa.Value]bool{})
+		usesBig := false
+		for _, b := range fn.Blocks {
+			for _, in := range b.Instrs {
+				if c, ok := in.(*ssa.Call); ok && isBig(c, "Exp") {
+					usesBig = true
+				}
+			}
+		}
+		ok := w == ""
+		detail := "secret is not an integer rendered at variable width"
+		if ok && usesBig {
+			// an integer secret: it must have been written with FillBytes into this very buffer
+			filled := false
+			for _, b := range fn.Blocks {
+				for _, in := range b.Instrs {
+					if c, isCall := in.(*ssa.Call); isCall && isBig(c, "FillBytes") && len(c.Call.Args) == 2 && c.Call.Args[1] == secret {
+						filled = true
+					}
+				}
+			}
+			ok = filled
+			detail = "modular-exponentiation secret written with FillBytes into the KDF's secret buffer"
+			if !filled {
+				detail = "the function computes its secret with big.Int.Exp but the KDF's secret argument is not a buffer filled by FillBytes: width of the secret is undecided"
+			}
+		}
+		if w != "" {
+			detail = "secret contains " + w + ": leading zero octets of the shared secret are dropped"
+		}
+		r.table(p, rule, "secret of "+siteKey(p, call), p.instrPos(call), ok, detail)
+	}
 }
